@@ -14,8 +14,9 @@ VARIABLES i, ms
 vars == <<i, ms>>
 
 Init == /\ i \in 1..Len(Obs)
-        /\ ms = LET nv == ProgMaxReg(Obs[i].prog, Len(Obs[i].prog)) IN
-                [j \in 1..Len(Obs[i].inputs) |-> InitMachine(nv, Obs[i].inputs[j])]
+        /\ ms = LET nv == ProgMaxReg(Obs[i].prog, Len(Obs[i].prog))
+                    nx == ProgMaxXReg(Obs[i].prog, Len(Obs[i].prog)) IN
+                [j \in 1..Len(Obs[i].inputs) |-> InitMachineX(nv, nx, Obs[i].inputs[j])]
 Next == /\ ~(\A j \in 1..Len(ms) : ms[j].halted)
         /\ ms' = [j \in 1..Len(ms) |-> StepM(Obs[i].prog, ms[j])]
         /\ UNCHANGED i
